@@ -288,8 +288,15 @@ def evaluate__treat_expression(self: XPathToken, context: ta.ContextType = None)
         for _ in self[0].select(context):
             raise self.error('XPDY0050')
     elif self[1].label in ('kind test', 'sequence type', 'function test'):
-        for position, item in enumerate(self[0].select(context)):
-            result = self[1].evaluate(context)
+        if context is None:
+            raise self.missing_context()
+
+        for position, item in enumerate(self[0].select(copy(context))):
+            # the test applies to the item, not to the context item of the expression
+            item_context = copy(context)
+            item_context.item = item
+            item_context.axis = 'self'
+            result = self[1].evaluate(item_context)
             if not result and isinstance(result, list):
                 raise self.error('XPDY0050')
             elif position and occurs in ('', '?'):
